@@ -81,6 +81,9 @@ def gen_case(rng, n, tier, kind='model'):
                 continue
             if any(np.hypot(i - p[0], j - p[1]) < 0.8 * beam_px for p in placed):
                 continue
+            # ... and as isolated from the members of every OTHER island as any new source has to be
+            if any(np.hypot(i - p[0], j - p[1]) < reach + p[2] for p, q in zip(placed, srcs) if q['island'] != srcs[k]['island']):
+                continue
         elif any(np.hypot(i - p[0], j - p[1]) < reach + p[2] for p in placed):
             continue
         if rng.random() < 0.3:
@@ -497,7 +500,10 @@ def _compare_sets(o, ctx, outs_a, outs_b, what, tol, margin='interference_rel_ch
             d = abs(x - y)
             rel = d / max(abs(x), 1e-300) if k not in ('ra', 'dec', 'pa') else d
             o.worst(margin, rel)
-            if rel > tol:
+            o.worst(margin + '_' + k, rel)
+            # error columns are derivatives at the solution and move ten times more than the values under the same
+            # rounding-level perturbation (observed 9e-5 vs 1.3e-5): judged at ten times the tolerance of the values
+            if rel > (tol * 10 if k.startswith('err_') else tol):
                 o.violate('result_changed', dict(ctx, what=what, uuid=u, column=k, first=x, second=y))
     for u in b:
         if u not in a and u in [s.uuid for s in outs_a]:
